@@ -18,7 +18,7 @@ Oracle    : (independent of the model) harness/c09_ops.c walks source and result
             recursion and size table: dump(source, links as requested) == dump(result); cgnsdiff -d on (file, copy)
             prints nothing and on (file, one elementary edit of the copy) prints something.
 """
-import copy as _copy, hashlib, json, os, re, shutil, struct, subprocess
+import concurrent.futures, copy as _copy, hashlib, json, os, re, shutil, struct, subprocess
 import vlib
 from checks import nodedb
 
@@ -26,6 +26,7 @@ CHECKER = "make -C coq Properties_C09.vo deps (coqc 8.16.1 kernel); coqc Propert
 TOOLS = os.path.join(vlib.REPO, "src", "tools")
 TY = nodedb.TYPES
 
+WORKERS = 4
 K_ROOT = "cgnsdiff-root-label-differs-across-formats"
 K_LOWER = "copy-lowercase-type-data-dropped"
 K_COMPOUND = "copy-compound-type-heap-overflow"
@@ -38,6 +39,18 @@ ROOT_LINE = "/ <> / : labels differ"
 
 def hx(b):
     return b.hex() if b else "-"
+
+
+_REPORTED = set()
+
+
+def finding_once(ck, key, replay):
+    """ck.finding, at most once per key in a run"""
+    k = key
+    if k in _REPORTED:
+        return
+    _REPORTED.add(k)
+    ck.finding(key, replay)
 
 
 # ------------------------------------------------------------------------------------------------ trees
@@ -323,60 +336,54 @@ def do_world(cx, world, idx, thorough, want_diff=True):
     fl = world["flags"]
     scen = scenario_list(rng, world, thorough)
     ext = lambda y: "adf" if y == "adf" else "hdf"
-    # ---- implementation: one batch for the library entry points, one process per tool
-    ops = ["dump %s 0" % src, "dump %s 1" % src, "dump %s 2" % src]
+    # ---- implementation: one process per scenario (HDF5 keeps files reached through external links open after the
+    #      linking file is closed, so scenarios must not share a process); the source is walked in its own process
+    lines, oc, stack = run_ops(cx, ["dump %s 0" % src, "dump %s 1" % src, "dump %s 2" % src], work)
+    d_src = sections(lines)
+    if oc != "ok" or len(d_src) != 3 or any(s[1] != "ok" for s in d_src[:2]):
+        raise vlib.Infra("walker cannot read the generated source %s: %s %s" % (src, oc, [s[1] for s in d_src]))
     outs = {}
-    for i, (api, y, fo) in enumerate(scen):
-        dst = "%s_o%d.%s" % (src.rsplit("_", 1)[0], i, ext(y))
-        outs[i] = dst
+
+    def one(i):
+        api, y, fo = scen[i]
+        dst = outs[i]
+        dumps = ["dump %s 0" % dst, "dump %s 2" % dst]
         if api in ("copyfile_r", "copyfile_m"):
-            ops += ["copyfile %s %s %s %d %s" % (src, dst, y, fo, api[-1]), "dump %s 0" % dst, "dump %s 2" % dst]
+            ops = ["copyfile %s %s %s %d %s" % (src, dst, y, fo, api[-1])]
         elif api == "saveas":
-            ops += ["saveas %s %s %s %d" % (src, dst, y, fo), "dump %s 0" % dst, "dump %s 2" % dst]
+            ops = ["saveas %s %s %s %d" % (src, dst, y, fo)]
         elif api in ("compress_r", "compress_m"):
-            ops += ["compress %s %s %s 0" % (src, dst, api[-1]), "dump %s 0" % dst, "dump %s 2" % dst]
+            ops = ["compress %s %s %s 0" % (src, dst, api[-1])]
         elif api == "mllcompress":
             shutil.copy(os.path.join(work, src), os.path.join(work, dst))
-            ops += ["mllcompress %s" % dst, "dump %s 0" % dst, "dump %s 2" % dst]
-    lines, oc, stack = run_ops(cx, ops, work)
-    sec = sections(lines)
-    if oc != "ok":
-        return fail(cx, world, idx, {"what": "library entry points", "outcome": oc, "stack": stack, "completed": len(sec), "script": ops})
-    it = iter(sec)
-    d_src = [next(it) for _ in range(3)]
-    if any(s[1] != "ok" for s in d_src[:2]):
-        raise vlib.Infra("walker cannot read the generated source %s: %s" % (src, [s[1] for s in d_src]))
-    impl = {}
-    for i, (api, y, fo) in enumerate(scen):
-        if api in ("cgnsconvert", "cgnscompress", "cgnscompress_inplace"):
-            continue
-        r = next(it); d0 = next(it); d2 = next(it)
-        impl[i] = (ok_of(r[1]), r[1], d0, d2)
-    # tools
-    tool_ops = []
-    for i, (api, y, fo) in enumerate(scen):
-        dst = outs[i]
-        if api == "cgnsconvert":
-            args = (["-a"] if y == "adf" else ["-h"]) + ["-f"] + (["-l"] if fo else []) + [src, dst]
-            o, toc, err = run_tool(cx, "cgnsconvert", args, work)
-        elif api == "cgnscompress":
-            o, toc, err = run_tool(cx, "cgnscompress", [src, dst], work)
-        elif api == "cgnscompress_inplace":
-            shutil.copy(os.path.join(work, src), os.path.join(work, dst))
-            o, toc, err = run_tool(cx, "cgnscompress", [dst], work)
+            ops = ["mllcompress %s" % dst]
         else:
-            continue
-        impl[i] = ("ok" if toc == "ok" else ("err" if toc.startswith("exit") else toc), toc + " " + err[-200:], None, None)
-        tool_ops += ["dump %s 0" % dst, "dump %s 2" % dst]
-    if tool_ops:
-        lines, oc, stack = run_ops(cx, tool_ops, work)
-        if oc != "ok":
-            return fail(cx, world, idx, {"what": "walking tool outputs", "outcome": oc, "stack": stack})
-        it = iter(sections(lines))
-        for i, (api, y, fo) in enumerate(scen):
-            if api in ("cgnsconvert", "cgnscompress", "cgnscompress_inplace"):
-                d0 = next(it); d2 = next(it)
-                impl[i] = impl[i][:2] + (d0, d2)
+            if api == "cgnsconvert":
+                o, toc, err = run_tool(cx, "cgnsconvert", (["-a"] if y == "adf" else ["-h"]) + ["-f"] + (["-l"] if fo else []) + [src, dst], work)
+            elif api == "cgnscompress":
+                o, toc, err = run_tool(cx, "cgnscompress", [src, dst], work)
+            else:
+                shutil.copy(os.path.join(work, src), os.path.join(work, dst))
+                o, toc, err = run_tool(cx, "cgnscompress", [dst], work)
+            lines, oc, stack = run_ops(cx, dumps, work)
+            sec = sections(lines)
+            if oc != "ok" or len(sec) != 2:
+                return ("walk:" + oc, toc + " " + err[-200:], ("dump", "err", []), ("dump", "err", []))
+            return ("ok" if toc == "ok" else ("err" if toc.startswith("exit") else toc), toc + " " + err[-200:], sec[0], sec[1])
+        lines, oc, stack = run_ops(cx, ops + dumps, work)
+        sec = sections(lines)
+        if oc != "ok" or len(sec) != 3:
+            return (oc if oc != "ok" else "short", "%s %s" % (oc, stack), ("dump", "err", []), ("dump", "err", []))
+        return (ok_of(sec[0][1]), sec[0][1], sec[1], sec[2])
+    for i, (api, y, fo) in enumerate(scen):
+        outs[i] = "%s_o%d.%s" % (src.rsplit("_", 1)[0], i, ext(y))
+    # sources opened for modification take HDF5's write lock (also on the linked files): those scenarios run alone
+    par = [i for i, sc in enumerate(scen) if sc[0] not in ("copyfile_m", "compress_m", "mllcompress")]
+    with concurrent.futures.ThreadPoolExecutor(max_workers=WORKERS) as ex:
+        impl = dict(zip(par, ex.map(one, par)))
+    for i in range(len(scen)):
+        if i not in impl:
+            impl[i] = one(i)
     # ---- model
     ms = []
     for f in world["order"]:
@@ -438,7 +445,7 @@ def do_world(cx, world, idx, thorough, want_diff=True):
     sig = hashlib.sha1(json.dumps([l for f in world["order"] for l in model_file(f, be, world["trees"][f])]).encode()).hexdigest()
     ck.case(sig if (nontriv or st[3] > 4096) else None,
             sample={"backend": be, "files": len(world["order"]), "nodes": st[0], "depth": st[1], "links": fl, "scenarios": [s[0] + "->" + s[1] + ":f%d" % s[2] for s in scen][:6]})
-    for f in list(outs.values()) + world["order"]:
+    for f in ([] if os.environ.get("C09_KEEP") else list(outs.values()) + world["order"]):
         for g in (f, f + ".edit"):
             try:
                 os.unlink(os.path.join(work, g))
@@ -630,7 +637,7 @@ def do_diff(cx, world, idx, scen, outs, impl, thorough):
             fail(cx, world, idx, {"oracle": "cgnsdiff on (file, copy) runs", "outcome": oc, "stderr": err, "scenario": "%s %s->%s f%d" % (api, be, y, fo)})
             continue
         if ROOT_LINE in out and y != be:
-            ck.finding(K_ROOT, {"what": "cgnsdiff -d on an ADF file and its HDF5 conversion (or vice versa) always prints '/ <> / : labels differ': the roots' "
+            finding_once(ck, K_ROOT, {"what": "cgnsdiff -d on an ADF file and its HDF5 conversion (or vice versa) always prints '/ <> / : labels differ': the roots' "
                                 "format specific labels ('Root Node of ADF File' / 'Root Node of HDF5 File') are compared",
                                 "witness": witness_script("root"), "output": out[:5]})
         elif ROOT_LINE in out:
@@ -712,7 +719,7 @@ def witnesses(cx):
     res["lower"] = {"typed_write": p.stdout.strip(), "outcome": oc, "source": sec[0][2] if sec else None, "copy_status": sec[1][1] if len(sec) > 1 else None,
                     "copy": sec[2][2] if len(sec) > 2 else None, "model": msec[0][2] if msec else None}
     if oc == "ok" and len(sec) == 3 and sec[1][1] == "ok" and sec[0][2] != sec[2][2]:
-        ck.finding(K_LOWER, {"what": "cgio_compute_data_size switches on the first character in upper case only: an ADF node whose type string "
+        finding_once(ck, K_LOWER, {"what": "cgio_compute_data_size switches on the first character in upper case only: an ADF node whose type string "
                              "is lower case ('r8'; ADF stores the string as given and reads/writes such nodes) is given size 0 and "
                              "cgio_copy_file / cg_save_as / cgio_compress_file return success without its data",
                              "witness": witness_script("lower"), "source_walk": sec[0][2], "copy_walk": sec[2][2],
@@ -729,7 +736,7 @@ def witnesses(cx):
     lines, oc, st = run_ops(cx, ["copyfile wc.adf wc2.adf adf 0 r"], work)
     res["compound"] = {"typed_write": p.stdout.strip(), "outcome": oc, "stack": st}
     if oc.startswith("asan:heap-buffer-overflow") and "cgio_copy_node" in st:
-        ck.finding(K_COMPOUND, {"what": "cgio_copy_node sizes its buffer with cgio_compute_data_size, which looks at the first two characters of the type "
+        finding_once(ck, K_COMPOUND, {"what": "cgio_copy_node sizes its buffer with cgio_compute_data_size, which looks at the first two characters of the type "
                                 "only: an ADF node of a compound type ('I4,R8': 12 bytes per element, sized as 4) makes ADF_Read_All_Data "
                                 "write past the buffer", "witness": witness_script("compound"), "outcome": oc, "stack": st})
     elif oc == "ok":
@@ -748,7 +755,7 @@ def witnesses(cx):
         ms = model_file("wnB." + ext, be, B) + model_file("wnA." + ext, be, A) + ["copy %s %s %s 1" % (hx(("wnA." + ext).encode()), hx(("wnO." + ext).encode()), be)]
         msec = sections(vlib.run_model("c09", "\n".join(ms) + "\n"))
         if toc == "ok" and oc == "ok" and len(sec) == 3 and sec[0][2] != sec[1][2]:
-            ck.finding(K_NESTED, {"what": "with follow_links an external link is replaced by a copy of its target, but an INTERNAL link found inside that "
+            finding_once(ck, K_NESTED, {"what": "with follow_links an external link is replaced by a copy of its target, but an INTERNAL link found inside that "
                                   "target is copied verbatim: in the new file its path names a node of the new file (another node, or none) "
                                   "instead of the node of the linked file it meant", "witness": witness_script("nested"), "backend": be,
                                   "resolved_source": sec[0][2], "resolved_copy": sec[1][2]})
@@ -771,7 +778,7 @@ def witnesses(cx):
         sec = sections(lines)
         pred = model_diff([(f1, be, trees[f1]), (f2, be, trees[f2])], f1, f2, 0)
         if oc == "ok" and doc == "ok" and sec[0][2] != sec[1][2] and not out:
-            ck.finding(K_LINKBLIND, {"what": "without -f cgnsdiff compares a link node by the label / type / dimensions / data of its target and never the "
+            finding_once(ck, K_LINKBLIND, {"what": "without -f cgnsdiff compares a link node by the label / type / dimensions / data of its target and never the "
                                      "link's file and path: retargeting a link to a node with the same label, type and data is not reported",
                                      "witness": witness_script("linkblind"), "backend": be, "walk1": sec[0][2], "walk2": sec[1][2]})
             if pred != out:
@@ -796,7 +803,7 @@ def witnesses(cx):
         out, doc, err = run_cgnsdiff(cx, work, f, "wd2." + ext, 0)
         pred = model_diff([(f, be, chain), ("wd2." + ext, be, chain)], f, "wd2." + ext, 0)
         if doc.startswith("asan:stack-buffer-overflow"):
-            ck.finding(K_DEEP, {"what": "cgnsdiff builds node paths with sprintf into char path1[1024], path2[1024]: a tree deeper than 31 levels of "
+            finding_once(ck, K_DEEP, {"what": "cgnsdiff builds node paths with sprintf into char path1[1024], path2[1024]: a tree deeper than 31 levels of "
                                 "32-character names (legal for both back ends; copied correctly) overflows the stack buffers",
                                 "witness": witness_script("deep"), "outcome": doc, "model_predicts": pred[-1:]})
             if pred[-1:] != ["!path_overflow"]:
@@ -814,7 +821,7 @@ def witnesses(cx):
         fail(cx, {"be": "adf", "flags": {}, "order": [], "trees": {}}, -1, {"oracle": "compress with 3 other files open", "outcome": oc4, "sections": [s[1] for s in sec]})
     lines5, oc5, st5 = run_ops(cx, ["compress %s %s r 5" % (f, f)], work)
     if oc5.startswith("asan:heap-use-after-free") and "rewrite_file" in st5:
-        ck.finding(K_UAF, {"what": "rewrite_file keeps `input` (a pointer into iolist) across cgio_open_file of the temporary file, which reallocs iolist "
+        finding_once(ck, K_UAF, {"what": "rewrite_file keeps `input` (a pointer into iolist) across cgio_open_file of the temporary file, which reallocs iolist "
                            "when all slots are in use (5 or more cgio files open): input->rootid is read from freed memory",
                            "witness": witness_script("uaf"), "outcome": oc5, "stack": st5})
     elif oc5 != "ok":
